@@ -9,7 +9,7 @@ RULE = ('call sequences: EVERY sequence over {Start, Stop} of length 1..6 (126 s
         'within 3 s with exactly the error/no-error the model predicts, after every successful Start under traffic the decoder is called again within 2 s (also after restarts), goroutine count returns to the baseline, the port can be '
         'bound again; queued-before-Stop: 100..600 datagrams read and queued behind decoders that are released only after Stop '
         'was called: when Stop returns every datagram read has been decoded; end to end: the goflow2 binary built from /repo '
-        'listening on netflow://, N NetFlow v5 datagrams, SIGTERM -> exit status 0 and one JSON line per flow record in the file. '
+        'listening on netflow://, N NetFlow v5 datagrams, SIGTERM -> exit status 0 and one JSON line per flow record in the file; and with a BACKLOG: two listeners (the default shape), output to a FIFO that is read only after SIGTERM, so that the workers are blocked in the output and the queue is full of accepted datagrams when the signal arrives -> every record comes out, exit status 0. '
         'non-trivial = a sequence containing at least one successful Start and Stop; distinct by parameters')
 TRUSTED = ['Coq 8.16.1 kernel (coqc)', 'Go harness harness/udpseq.go, bin/engine.py', 'modelled, not verified: utils/udp.go Start/Stop/init; cmd/goflow2/main.go shutdown order is exercised, not modelled']
 ASSUMPTIONS = ['liveness is proved as progress + strictly decreasing measure on the model; real time and the OS are observed (3 s watchdog per call)',
@@ -110,6 +110,102 @@ def end_to_end(chk, n):
     return rc, recs, lines
 
 
+def end_to_end_backlog(chk, n):
+    """SIGTERM with a BACKLOG (seventh round, seed C18-7): the collector as it is started by default -- two listeners --
+    writes to a FIFO nobody reads yet, so its workers block in the output and the first listener's queue fills with
+    datagrams it has taken in; SIGTERM arrives then; only afterwards the FIFO is drained. Every record of every datagram
+    the collector read from its socket must come out, and the exit status must be 0."""
+    import shutil
+    bdir = tempfile.mkdtemp(prefix='c18bl', dir='/root/scratch')
+    exe = os.path.join(bdir, 'goflow2')
+    p = sh('go build -o %s ./cmd/goflow2' % exe, cwd=REPO, env=GOENV, timeout=600, check=False)
+    if p.returncode != 0:
+        shutil.rmtree(bdir, ignore_errors=True)
+        return None
+    fifo = os.path.join(bdir, 'out.fifo')
+    os.mkfifo(fifo)
+    rfd = os.open(fifo, os.O_RDONLY | os.O_NONBLOCK)      # a reader exists (the collector can open the FIFO) but does not read
+    ports = []
+    for _ in range(2):
+        s = socket.socket(socket.AF_INET, socket.SOCK_DGRAM)
+        s.bind(('127.0.0.1', 0))
+        ports.append(s.getsockname()[1])
+        s.close()
+    pr = subprocess.Popen([exe, '-listen', 'netflow://127.0.0.1:%d,sflow://127.0.0.1:%d' % tuple(ports), '-transport', 'file',
+                           '-transport.file', fifo, '-format', 'json', '-addr', '', '-loglevel', 'error'],
+                          stdout=subprocess.PIPE, stderr=subprocess.PIPE)
+
+    def rxq(port):
+        hexport = ':%04X ' % port
+        try:
+            for l in open('/proc/net/udp'):
+                if hexport in l:
+                    return int(l.split()[4].split(':')[1], 16)
+        except OSError:
+            pass
+        return None
+    for _ in range(600):
+        if rxq(ports[0]) is not None and rxq(ports[1]) is not None:
+            break
+        time.sleep(0.05)
+    time.sleep(0.2)
+    tx = socket.socket(socket.AF_INET, socket.SOCK_DGRAM)
+    recs = 0
+    for i in range(n):
+        k = 1 + i % 5
+        hdr = (5).to_bytes(2, 'big') + k.to_bytes(2, 'big') + bytes(20)
+        tx.sendto(hdr + b''.join(bytes([i % 256]) * 48 for _ in range(k)), ('127.0.0.1', ports[0]))
+        recs += k
+        if i % 20 == 19:
+            time.sleep(0.005)
+            t0 = time.time()
+            while (rxq(ports[0]) or 0) > 60000 and time.time() - t0 < 20:   # never near the socket buffer's limit
+                time.sleep(0.01)
+    # until the collector has read everything from its socket (rx queue empty, twice 0.2 s apart)
+    t0, calm = time.time(), 0
+    while time.time() - t0 < 60 and calm < 2:
+        calm = calm + 1 if rxq(ports[0]) == 0 else 0
+        time.sleep(0.2)
+    taken_all = calm >= 2
+    pr.send_signal(signal.SIGTERM)
+    time.sleep(0.3)
+    # now drain the FIFO until the collector has closed it
+    import select
+    buf = bytearray()
+    t0 = time.time()
+    while time.time() - t0 < 90:
+        r, _, _ = select.select([rfd], [], [], 0.5)
+        if r:
+            try:
+                b = os.read(rfd, 1 << 16)
+            except BlockingIOError:
+                continue
+            if not b:
+                if pr.poll() is not None:
+                    break
+                time.sleep(0.02)
+                continue
+            buf += b
+        elif pr.poll() is not None:
+            break
+    try:
+        rc = pr.wait(timeout=30)
+    except subprocess.TimeoutExpired:
+        pr.kill()
+        rc = 'timeout'
+    try:
+        while True:
+            b = os.read(rfd, 1 << 16)
+            if not b:
+                break
+            buf += b
+    except (BlockingIOError, OSError):
+        pass
+    os.close(rfd)
+    shutil.rmtree(bdir, ignore_errors=True)
+    return rc, recs, bytes(buf).count(b'\n'), taken_all
+
+
 def run(chk):
     me = sys.modules[__name__]
     std_prepare(chk)
@@ -177,4 +273,15 @@ def run(chk):
         if rc != 0 or nlines != recs:
             chk.record('scopeA', dict(concrete=True, input='goflow2 binary: %d v5 records then SIGTERM' % recs, impl='exit=%s lines=%d' % (rc, nlines),
                        expected='exit=0 lines=%d' % recs, what='SIGTERM did not make the collector finish what it took in, flush and exit 0'), {})
+    rb = end_to_end_backlog(chk, dict(quick=300, thorough=1500)[chk.tier])
+    if rb is not None:
+        rc, recs, nlines, taken_all = rb
+        chk.evals += 1
+        chk.notes.append('end to end with a backlog at SIGTERM (two listeners, output FIFO drained after the signal): exit=%s records sent=%d lines written=%d all taken in=%s' % (rc, recs, nlines, taken_all))
+        # judged only when the collector had read every datagram from its socket before the signal (otherwise the
+        # datagrams still in the kernel's buffer were never accepted and may be lost)
+        if taken_all and (rc != 0 or nlines != recs):
+            chk.record('scopeA', dict(concrete=True, input='goflow2 binary, listeners netflow + sflow, output FIFO not read until after SIGTERM: %d v5 records to the first listener, all read from the socket, then SIGTERM' % recs,
+                       impl='exit=%s lines=%d' % (rc, nlines), expected='exit=0 lines=%d' % recs,
+                       what='SIGTERM with a backlog: the collector did not finish the datagrams it had taken in before closing the output'), {})
     return chk.finish(me)
